@@ -364,6 +364,19 @@ def c_point_intersects_special(rng):
             out.append(V(f'pointarray.intersects-special/{skind}/{key}', f'point {p} shape {shape_el}: got {bool(g)} expected {e}',
                          {'kind': 'point', 'elements': cand, 'steps': []}, shape=[skind, shape_el]))
             break
+    # the scalar form (Point.intersects) and the array form restricted to positions give the same answers
+    if not out:
+        for i, (p, g) in enumerate(zip(cand, got)):
+            sc = arr[i].intersects(shape)
+            if bool(sc) != bool(g):
+                out.append(V(f'pointarray.intersects-special/{skind}/scalar-form', f'point {p} shape {shape_el}: scalar {bool(sc)} array {bool(g)}',
+                             {'kind': 'point', 'elements': cand, 'steps': []}, shape=[skind, shape_el]))
+                break
+        inds = np.array([rng.randrange(len(cand)) for _ in range(rng.randint(1, 4))], dtype='int64')
+        gi = arr.intersects(shape, inds)
+        if [bool(x) for x in gi] != [bool(got[i]) for i in inds]:
+            out.append(V(f'pointarray.intersects-special/{skind}/inds-form', f'inds {inds.tolist()}',
+                         {'kind': 'point', 'elements': cand, 'steps': []}, shape=[skind, shape_el]))
     return out
 
 
@@ -380,7 +393,7 @@ def c_derived(rng):
     isna = list(arr.isna())
     if isna != [v is None for v in view]:
         out.append(V(f'array.isna/{kind}', f'{isna}', cs.recipe))
-    got = arr.data.to_pylist() if kind != 'point' else [None if x is None else list(np.frombuffer(x, dtype='float64')) for x in arr.data.to_pylist()]
+    got = arr.data.to_pylist() if kind != 'point' else [None if x is None else [float(c) for c in np.frombuffer(x, dtype=cs.dtype)] for x in arr.data.to_pylist()]
     exp = [None if v is None else _norm(kind, v) for v in view]
     if got != exp:
         out.append(V(f'array.elements/{kind}', f'got {got} expected {exp}', cs.recipe))
@@ -473,7 +486,7 @@ def c_hilbert_distance(rng):
     for i, el in enumerate(cs.view):
         if el is None:
             continue
-        one = gen.build(kind, [el])
+        one = gen.build(kind, [el], cs.dtype)
         try:
             d1 = one.hilbert_distance(total_bounds=list(ref_tb), p=p)[0]
         except Exception as e:
@@ -573,15 +586,22 @@ def c_hilbert_reference(rng):
     if not len(cs.view):
         return []
     p = rng.choice([1, 2, 3, 4, 6])
-    x0, y0 = float(rng.randint(-8, 0)), float(rng.randint(-8, 0))
+    # origin possibly fractional (the extent stays a power of two, so the scaling is exact): an explicit total_bounds is
+    # a float box whatever the coordinate subtype of the array
+    x0, y0 = float(rng.randint(-8, 0)) + rng.choice([0.0, 0.0, 0.5, 0.25]), float(rng.randint(-8, 0)) + rng.choice([0.0, 0.0, 0.5])
     w = rng.choice([0.0, 8.0, 16.0, 32.0])
     h = rng.choice([0.0, 8.0, 16.0, 32.0])
     tb = (x0, y0, x0 + w, y0 + h)
     variant = rng.choice(['tuple', 'list', 'array'])
     arg = {'tuple': tuple(tb), 'list': list(tb), 'array': np.array(tb)}[variant]
-    recipe = dict(cs.recipe, total_bounds=list(tb), p=p, variant=variant)
+    route = rng.choice(['array', 'array', 'series'])
+    recipe = dict(cs.recipe, total_bounds=list(tb), p=p, variant=variant, route=route)
     try:
-        d = cs.arr.hilbert_distance(total_bounds=arg, p=p)
+        if route == 'series':
+            import spatialpandas as sp
+            d = sp.GeoSeries(cs.arr).hilbert_distance(total_bounds=arg, p=p).values
+        else:
+            d = cs.arr.hilbert_distance(total_bounds=arg, p=p)
     except Exception as e:
         return [V(f'array.hilbert_distance-reference/raises-{type(e).__name__}/{"degenerate" if 0.0 in (w, h) else "regular"}', f'{e}', recipe)]
     side = 1 << p
